@@ -1497,6 +1497,7 @@ func c17r31(c *Ctx, r *Report) {
 }
 
 func round11(c *Ctx, r *Report, prop string) {
+	defer round12(c, r, prop)
 	switch prop {
 	case "C01":
 		c03r10(c, r) // word boundaries are decided by the class of the neighbouring character
